@@ -75,6 +75,7 @@ func Start(ctx context.Context, s *Sandbox) (interop.RapidContext, interop.Inter
 		server:                server,
 		appCtx:                appCtx,
 		initDone:              false,
+		invokeRuntimeDoneSent: true, // no invocation has started: a reset now owes no runtime-done
 		initFlow:              initFlow,
 		invokeFlow:            invokeFlow,
 		registrationService:   registrationService,
